@@ -13,8 +13,11 @@ package c12
 
 import (
 	"bytes"
+	"encoding/json"
 	"fmt"
+	"os"
 	"runtime"
+	"sort"
 	"strings"
 	"sync"
 	"testing"
@@ -23,7 +26,14 @@ import (
 	"tunnox-core/verif/vkit"
 )
 
-func TestMain(m *testing.M) { vkit.Main(m, "C12") }
+func TestMain(m *testing.M) {
+	// shrinking re-executes relay cases that allocate ~1 MB each (and, in TestUDPEveryCut,
+	// hundreds of them per attempt): keep the shrink phase of a failing run short.
+	if os.Getenv("VERIF_SHRINKTIME") == "" {
+		os.Setenv("VERIF_SHRINKTIME", "6s")
+	}
+	vkit.Main(m, "C12")
+}
 
 // Case is the JSON replay unit: exactly one of TCP / UDP is set.
 type Case struct {
@@ -54,41 +64,36 @@ func hangf(key, format string, a ...any) *failure {
 var lat struct {
 	mu      sync.Mutex
 	samples []time.Duration
+	n       int
+	bound   time.Duration
 }
 
 func noteLatency(d time.Duration) {
 	lat.mu.Lock()
-	if len(lat.samples) < 4096 {
+	if len(lat.samples) < 1024 {
 		lat.samples = append(lat.samples, d)
 	} else {
-		lat.samples[int(d)%len(lat.samples)] = d
+		lat.samples[lat.n%len(lat.samples)] = d
+	}
+	lat.n++
+	if lat.n%128 == 16 { // refresh the bound now and then (a sort per call would dominate the run)
+		s := append([]time.Duration(nil), lat.samples...)
+		sort.Slice(s, func(i, j int) bool { return s[i] < s[j] })
+		b := 1000 * s[len(s)/2]
+		if b > 20*time.Second {
+			b = 20 * time.Second
+		}
+		lat.bound = b
 	}
 	lat.mu.Unlock()
 }
 
 func bound() time.Duration {
-	b := 3 * time.Second
 	lat.mu.Lock()
-	n := len(lat.samples)
-	if n >= 16 {
-		s := append([]time.Duration(nil), lat.samples...)
-		// median by partial selection (n is small)
-		for i := 0; i <= n/2; i++ {
-			m := i
-			for j := i + 1; j < n; j++ {
-				if s[j] < s[m] {
-					m = j
-				}
-			}
-			s[i], s[m] = s[m], s[i]
-		}
-		if m := 1000 * s[n/2]; m > b {
-			b = m
-		}
-	}
+	b := lat.bound
 	lat.mu.Unlock()
-	if b > 20*time.Second {
-		b = 20 * time.Second
+	if b < 3*time.Second {
+		b = 3 * time.Second
 	}
 	return b
 }
@@ -226,7 +231,40 @@ func run(c Case) (*failure, string, bool, string) {
 	return runUDP(c.UDP)
 }
 
+// Shrinking budget for verdicts that rest on a bounded wait: every execution of such a
+// case costs two full bounds, and rapid's shrinker may try hundreds of variants of one
+// drawn value before it looks at its deadline. After two reported timing verdicts in one
+// test function further cases are not executed (rapid sees them as invalid, i.e. "does not
+// reproduce", and settles on the smallest failing case found so far); a case that already
+// failed is reported again from memory so that rapid's final re-run agrees.
+var slow struct {
+	mu      sync.Mutex
+	reports int
+	seen    map[string]*failure
+}
+
+func resetSlowBudget() {
+	slow.mu.Lock()
+	slow.reports = 0
+	slow.seen = map[string]*failure{}
+	slow.mu.Unlock()
+}
+
 func check(t vkit.TB, c Case) {
+	cj, _ := json.Marshal(c)
+	slow.mu.Lock()
+	prev, exhausted := slow.seen[string(cj)], slow.reports >= 2
+	slow.mu.Unlock()
+	if prev != nil {
+		vkit.Violation(t, prev.key, prev.detail, c)
+		return
+	}
+	if exhausted {
+		if sk, ok := t.(interface{ SkipNow() }); ok {
+			sk.SkipNow()
+		}
+		return
+	}
 	f, class, nt, sig := run(c)
 	if f != nil && f.timing && !vkit.IsKnown(f.key) {
 		// confirm once: a timing verdict must reproduce (a listed finding is only counted,
@@ -244,6 +282,15 @@ func check(t vkit.TB, c Case) {
 		}
 	}
 	if f != nil {
+		if f.timing && !vkit.IsKnown(f.key) {
+			slow.mu.Lock()
+			slow.reports++
+			if slow.seen == nil {
+				slow.seen = map[string]*failure{}
+			}
+			slow.seen[string(cj)] = f
+			slow.mu.Unlock()
+		}
 		vkit.Violation(t, f.key, f.detail, c)
 		vkit.Case("known:"+f.key, false, "")
 		return
